@@ -467,6 +467,12 @@ pub fn apply_schema(
             ));
         }
 
+        // 3. the primary key has to stay the same columns in the same order
+        // (the per-column `primary_key` flags compared above don't see a reordering)
+        if !table.pk.iter().eq(new_table.pk.iter()) {
+            return Err(ApplySchemaError::ModifyPrimaryKeys(name.clone()));
+        }
+
         let new_col_names = new_table
             .columns
             .keys()
